@@ -301,6 +301,27 @@ def _edit_in_place(rng, rs, folder, kind):
                 lines = [[s, p / tot] for s, p in lines]
         rs[key] = lines
         return rs, None
+    if kind == "move-markov":
+        # the Markov line of Grammar/grammar.txt appears, disappears or moves (the probabilities keep their places)
+        if folder != "Grammar":
+            return None
+        pos = [i for i, (s, _) in enumerate(lines) if s == "M"]
+        if pos and (len(lines) == 1 or rng.random() < 0.4):
+            if len(lines) == 1:
+                return None
+            del lines[pos[0]]
+        elif pos:
+            j = rng.choice([i for i in range(len(lines)) if i != pos[0]])
+            names = [s for s, _ in lines]
+            names.insert(j, names.pop(pos[0]))
+            lines = [[s, p] for s, (_, p) in zip(names, lines)]
+        else:
+            j = rng.randint(0, len(lines))
+            hi = float(lines[j - 1][1]) if j > 0 else 1.0
+            lo = float(lines[j][1]) if j < len(lines) else 0.0
+            lines.insert(j, ["M", rng.choice([hi, lo, (hi + lo) / 2, 0.5 * lo])])
+        rs[key] = lines
+        return rs, None
     if kind == "reweight-base":
         ps = rulesets.gen_probs(rng, len(lines), rng.random() < 0.5)
         if [p for _, p in lines] == ps:
@@ -383,15 +404,15 @@ def _edit_in_place(rng, rs, folder, kind):
 class HistoryGen:
     """Draws the steps of a history ONE AT A TIME (the next step starts from the files as the previous one left them, which for an
     edit_rules step is only known after the real tool ran):
-    (a) "flags": same files, other flags; (b) in-place edits with the uuid kept (drop-base, reweight-base, reweight-terminal,
-    add-value, remove-value, edit_rules = grammar.txt as the real edit_rules.py leaves it), loaded under the flags of an EARLIER
+    (a) "flags": same files, other flags; (b) in-place edits with the uuid kept (drop-base, reweight-base, move-markov,
+    reweight-terminal, add-value, remove-value, edit_rules = grammar.txt as the real edit_rules.py leaves it), loaded under the flags of an EARLIER
     load; (c) "retrain": everything replaced, new uuid; "same": nothing changes (a second session on the directory).
     Steps carry the full description to write, so the list of the steps taken is the replay of a violation."""
 
     FLAGS = [(False, False, "Grammar"), (True, False, "Grammar"), (False, True, "Grammar"),
              (True, True, "Grammar"), (False, False, "Prince"), (False, True, "Prince")]
     KINDS = ["flags"] * 3 + ["drop-base"] * 2 + ["reweight-base", "reweight-terminal", "reweight-terminal", "add-value",
-                                                 "remove-value", "edit_rules", "edit_rules", "retrain", "same"]
+                                                 "remove-value", "edit_rules", "edit_rules", "retrain", "same", "move-markov"]
 
     def __init__(self, rng, rs0, flags0, kinds=None, flag_choices=None, fix=None, gen=None):
         self.rng, self.kinds, self.flag_choices = rng, kinds or self.KINDS, flag_choices or self.FLAGS
